@@ -275,6 +275,29 @@ Proof.
     split; [lia|]. split; [lia|]. right. split; lia.
 Qed.
 
+(** ** "no unrefined false tie" (DESIGN.md, Appendix A (c)): for -27 <= q < 0 no normalised [w]
+    has [w * Thi q mod 2^(64+k)] in {0, 1}.  Decided per entry by exhibiting the inverse of the odd
+    part of [Thi q] modulo 2^(64+k). *)
+Fixpoint val2 (fuel : nat) (a : Z) : Z :=
+  match fuel with
+  | O => 0
+  | S n => if (a mod 2 =? 0) && negb (a =? 0) then 1 + val2 n (a / 2) else 0
+  end.
+Fixpoint newton_inv (fuel : nat) (a m x : Z) : Z :=
+  match fuel with
+  | O => x
+  | S n => newton_inv n a m ((x * (2 - a * x)) mod m)
+  end.
+Definition nuft_q (k q : Z) : bool :=
+  let a := Thi q in
+  let m := 2 ^ (64 + k) in
+  let j := val2 64 a in
+  let x := newton_inv 8 (a / 2 ^ j) m 1 in
+  (0 <=? j) && (j <=? k) && (0 <=? x) && (x <? m) && ((a * x) mod m =? 2 ^ j) &&
+  negb ((x mod 2 ^ j =? 0) && (2 ^ 63 <=? x / 2 ^ j) && (x / 2 ^ j <? 2 ^ 64)).
+Definition nuft_ok (f : format) : bool :=
+  forallb (nuft_q (61 - MANTISSA_SIZE f)) (zrange (-27) 27).
+
 (** ** side conditions on the format constants *)
 Definition lfmt_ok (f : format) : bool :=
   (2 <=? MANTISSA_SIZE f) && (MANTISSA_SIZE f <=? 58) &&
@@ -292,7 +315,8 @@ Definition lfmt_ok (f : format) : bool :=
   (2 ^ 64 <=? 2 ^ (MANTISSA_SIZE f + 1) * 5 ^ (1 - MIN_EXPONENT_ROUND_TO_EVEN f)) &&
   (-1000000 <=? EXPONENT_BIAS f) && (EXPONENT_BIAS f <=? 1000000) &&
   (-1000000 <=? INVALID_FP f) && (INVALID_FP f <=? 1000000) &&
-  (INVALID_FP f + EXPONENT_BIAS f <? -3000).
+  (INVALID_FP f + EXPONENT_BIAS f <? -3000) &&
+  nuft_ok f.
 
 Lemma lfmt_ok_F32 : lfmt_ok F32 = true. Proof. vm_compute. reflexivity. Qed.
 Lemma lfmt_ok_F64 : lfmt_ok F64 = true. Proof. vm_compute. reflexivity. Qed.
@@ -313,14 +337,16 @@ Record lfmt (f : format) : Prop := mkLfmt {
   lf_minrte5 : 2 ^ 64 <= 2 ^ (MANTISSA_SIZE f + 1) * 5 ^ (1 - MIN_EXPONENT_ROUND_TO_EVEN f);
   lf_bias : -1000000 <= EXPONENT_BIAS f <= 1000000;
   lf_invalid : -1000000 <= INVALID_FP f <= 1000000;
-  lf_decl : INVALID_FP f + EXPONENT_BIAS f < -3000
+  lf_decl : INVALID_FP f + EXPONENT_BIAS f < -3000;
+  lf_nuft : nuft_ok f = true
 }.
 
 Lemma lfmt_ok_spec f : lfmt_ok f = true -> lfmt f.
 Proof.
   unfold lfmt_ok. intros H.
+  apply andb_prop in H; destruct H as [H Hn].
   repeat (apply andb_prop in H; destruct H as [H ?]).
-  constructor; lia.
+  constructor; solve [lia | exact Hn].
 Qed.
 
 (** derived exponent facts *)
